@@ -220,3 +220,103 @@ def oracleC07 (o : Opts) (a b : Json) (d : Diff) (loo : List (Outcome Json)) : S
     | none => "ok"
 
 end Jd.Driver
+
+namespace Jd.Driver
+open Jd Jd.Wire Jd.Spec
+
+/-- can this diff be expressed with JSON Pointers at all (C09 refusal clause)? -/
+def expressible (d : Diff) : Bool :=
+  d.all (fun h => h.path.all (fun e => match e with
+    | .key k => (atoi? k).isNone && k != "-"
+    | .idx _ => true
+    | _ => false))
+
+/-- C09: the implementation's JSON Patch text evaluated by the independent RFC 6902 evaluator -/
+def oracleC09 (nc : NumCodec) (a b : Json) (d : Diff) (implText : Outcome String)
+    (targets : List (Json × Outcome Json)) : String :=
+  match implText with
+  | .panic => "fail RenderPatch panicked"
+  | .err =>
+    if expressible d then "fail RenderPatch refused a diff whose paths are expressible as JSON Pointers"
+    else "ok refused-inexpressible"
+  | .ok text =>
+    match parseJson nc text with
+    | none => "fail the rendered JSON Patch is not valid JSON"
+    | some doc =>
+      match opsOfJson doc with
+      | none => "fail the rendered JSON Patch is not a well-formed RFC 6902 document"
+      | some ops =>
+        if !(ops.all (fun o => o.op == "test" || o.op == "remove" || o.op == "add")) then
+          "fail unexpected operation in the rendered patch"
+        else
+          match eval a ops with
+          | none => (if expressible d then "fail" else "fail (inexpressible path mistranslated)") ++
+              " RFC 6902 evaluation of the rendered patch on a fails"
+          | some r =>
+            if !(specEq r b) then "fail RFC 6902 evaluation of the rendered patch on a does not yield b"
+            else
+              match targets.find? (fun (c, nat) => match nat with
+                  | .ok rc => (match eval c ops with | some r' => !(specEq r' rc) | none => true)
+                  | _ => false) with
+              | some (c, _) => "fail on target " ++ encNode c ++ " the native diff applies but the JSON Patch fails or gives a different result"
+              | none => "ok"
+
+/-- C10: whenever jd reads and applies a patch, RFC 6902 evaluation succeeds with the same result -/
+def oracleC10 (nc : NumCodec) (text : String) (c : Json) (implRead : Outcome Diff) (implPatch : Outcome Json) : String :=
+  match implRead, implPatch with
+  | .panic, _ | _, .panic => "fail panic"
+  | .ok _, .ok r =>
+    (match parseJson nc text with
+     | none => "fail jd read a text that is not JSON"
+     | some doc =>
+       match opsOfJson doc with
+       | none => "fail jd read a document that is not a well-formed JSON Patch"
+       | some ops =>
+         match eval c ops with
+         | none => "fail jd applied the patch but RFC 6902 evaluation fails (jd is more permissive)"
+         | some r' => if specEq r' r then "ok applied" else "fail jd and RFC 6902 evaluation give different results")
+  | _, _ => "ok stricter-or-unread"
+
+/-- C11: RFC 7386 MergePatch(a, rendered patch) is b under the array reading in force -/
+def oracleC11 (nc : NumCodec) (o : Opts) (a b : Json) (implText : Outcome String) : String :=
+  match implText with
+  | .ok text =>
+    (match parseJson nc text with
+     | none => "fail the rendered merge patch is not valid JSON"
+     | some p =>
+       let r := mergePatch a p
+       if equivB o r b then "ok"
+       else if setMode o && !(aliasFree o (subterms a ++ subterms b)) then "kf KF-C04-alias MergePatch(a, patch) is not b"
+       else "fail MergePatch(a, patch) = " ++ encNode r ++ " is not b")
+  | .err => "fail RenderMerge returned an error"
+  | .panic => "fail RenderMerge panicked"
+
+mutual
+/-- class of KF-C12-emptyobj: the patch has `{}` where the target holds an object (nested), or is `{}`
+    at the root over a non-object target -/
+partial def emptyObjOverObj (t p : Json) : Bool :=
+  match p with
+  | .obj [] => t.isObj
+  | .obj pkvs => pkvs.any (fun kv => match t with
+      | .obj tkvs => (match alookup kv.1 tkvs with | some tv => emptyObjOverObj tv kv.2 | none => false)
+      | _ => false)
+  | _ => false
+end
+
+/-- C12: jd's reading and application of a merge patch against the RFC 7386 pseudocode -/
+def oracleC12 (nc : NumCodec) (t : Json) (text : String) (impl : Outcome Json) : String :=
+  match parseJson nc text with
+  | none => "ok skipped-not-json"
+  | some p =>
+    let want := mergePatch t p
+    let cls (why : String) : String :=
+      match p with
+      | .null => "kf KF-C12-rootnull " ++ why
+      | .obj [] => if !t.isObj then "kf KF-C12-emptyobj " ++ why else "fail " ++ why
+      | _ => if emptyObjOverObj t p then "kf KF-C12-emptyobj " ++ why else "fail " ++ why
+    match impl with
+    | .ok r => if specEq r want then "ok" else cls ("jd gives " ++ encNode r ++ ", RFC 7386 gives " ++ encNode want)
+    | .err => cls "jd rejects a merge patch"
+    | .panic => "fail panic"
+
+end Jd.Driver
